@@ -4,7 +4,7 @@ import os
 import time
 
 VERIF = os.path.dirname(os.path.dirname(os.path.abspath(__file__)))
-EVIDENCE_DIR = os.path.join(VERIF, "evidence")
+EVIDENCE_DIR = os.environ.get("OAS_EVIDENCE_DIR") or os.path.join(VERIF, "evidence")
 FINDINGS_DIR = os.path.join(EVIDENCE_DIR, "findings")
 KNOWN = os.path.join(VERIF, "known_findings.json")
 
